@@ -197,3 +197,58 @@ class YieldInjector(object):
         mon.set_events(TOOL, 0)
         mon.register_callback(TOOL, mon.events.LINE, None)
         mon.free_tool_id(TOOL)
+
+
+# ---------------------------------------------------------------------------------------------
+class PauseAt(object):
+    """Race placement: the thread called `thread_name` is held at its k-th LINE event inside the chosen files for at most `hold`
+    seconds (or until release()), once.  `at_point` is set when it is held; `where` names the place."""
+
+    def __init__(self, file_suffixes, k, thread_name, hold=0.15, funcs=None):
+        self.suffixes = tuple(file_suffixes)
+        self.funcs = funcs
+        self.k = k
+        self.thread_name = thread_name
+        self.hold = hold
+        self.at_point = threading.Event()
+        self.resume = threading.Event()
+        self.where = None
+        self.events = 0
+        self._done = False
+
+    def release(self):
+        self.resume.set()
+
+    def __enter__(self):
+        mon = sys.monitoring
+        try:
+            mon.use_tool_id(TOOL, "vf-pause")
+        except ValueError:
+            mon.free_tool_id(TOOL)
+            mon.use_tool_id(TOOL, "vf-pause")
+
+        def cb(code, lineno):
+            if not code.co_filename.endswith(self.suffixes):
+                return mon.DISABLE
+            if self._done or threading.current_thread().name != self.thread_name:
+                return None
+            if self.funcs is not None and code.co_name not in self.funcs:
+                return None
+            self.events += 1
+            if self.events < self.k:
+                return None
+            self._done = True
+            self.where = "%s:%s:%d" % (os.path.basename(code.co_filename), code.co_name, lineno)
+            self.at_point.set()
+            self.resume.wait(self.hold)
+        mon.register_callback(TOOL, mon.events.LINE, cb)
+        mon.set_events(TOOL, mon.events.LINE)
+        mon.restart_events()
+        return self
+
+    def __exit__(self, *a):
+        mon = sys.monitoring
+        self.resume.set()
+        mon.set_events(TOOL, 0)
+        mon.register_callback(TOOL, mon.events.LINE, None)
+        mon.free_tool_id(TOOL)
